@@ -145,7 +145,8 @@ pub fn check(case: &Case, prep: &Prepared, run: &Run) -> (Vec<Violation>, Facts)
         }
         let mut ref_names: Vec<String> = reference.iter().map(|(n, _)| n.trim_end_matches(".p").to_string()).collect();
         ref_names.sort();
-        if announced != ref_names {
+        // (if the progress lines are worded differently, names cannot be observed on stdout; the file names of the emission remain)
+        if n_announced > 0 && announced != ref_names {
             out.push(v("I4-names", format!("announced problem names {announced:?} differ from the names of --save-problems {ref_names:?}")));
         }
         if let Some(saved) = &run.saved {
